@@ -130,3 +130,65 @@ func VerifHarness_C05_restart_equivalence() {
 	// nothing of block 2 leaks into the next block's accumulators
 	vAssert(len(L.receipts) == 0 && len(L.kvs) == 0 && len(L.keyValueHistories) == 0, "per-block-accumulators-empty-after-commit")
 }
+
+
+// vC05KVTxSig: like vC05KVTx, optionally with an unrecoverable signature
+func vC05KVTxSig(nonce uint64, key, val byte, badsig bool) []byte {
+	kv := &rtypes.KV{Key: []byte{'k', key}, Value: []byte{val}}
+	tx := etypes.NewTransaction(nonce, common.Address{}, nil, 0, nil, vC09KVPayload(kv, true))
+	if badsig {
+		tx = vC09BadSig(tx)
+	} else {
+		tx = vC09Sign(tx)
+	}
+	if vSymbolic() {
+		raw := vNondetBytes("rawtx", 2)
+		vJSONBind(raw, tx)
+		return raw
+	}
+	raw, err := rlp.EncodeToBytes(tx)
+	if err != nil {
+		panic(err)
+	}
+	return raw
+}
+
+// What a block yields must not depend on how many signature-checking workers a replica runs
+// (the default is the machine's CPU count, which differs between replicas): the same block with
+// 0..2 key-value transactions, any one of them carrying an unrecoverable signature, is executed
+// by two fresh replicas configured with 1 worker and with W workers.
+func VerifHarness_C05_worker_count_independence() {
+	vC09App()
+	k := vNondetLen("txs", 0, 2)
+	bad := vNondetLen("unsigned", -1, k-1)
+	w := vNondetLen("workers", 2, 16)
+	mk := func() *gtypes.Block {
+		var txs [][]byte
+		n := uint64(0)
+		for i := 0; i < k; i++ {
+			txs = append(txs, vC05KVTxSig(n, byte(i), 7, i == bad))
+			if i != bad {
+				n++
+			}
+		}
+		return vC05Block(1, txs)
+	}
+	saved := validateRoutineCount
+	validateRoutineCount = 1
+	A := vC05Start(vC05NewDisk())
+	ra, ca := vC05Run(A, mk())
+	validateRoutineCount = w
+	B := vC05Start(vC05NewDisk())
+	rb, cb := vC05Run(B, mk())
+	validateRoutineCount = saved
+	vReach("both-executed")
+	want := k
+	if bad >= 0 {
+		want--
+		vReach("one-unrecoverable-signature")
+	}
+	vAssert(len(ra.ValidTxs) == len(rb.ValidTxs) && len(ra.InvalidTxs) == len(rb.InvalidTxs), "same-valid-invalid-split-for-any-worker-count")
+	vAssert(len(ra.ValidTxs) == want && len(rb.ValidTxs) == want, "unrecoverable-signature-is-invalid-recoverable-ones-valid")
+	vAssert(bytes.Equal(ca.ReceiptsHash, cb.ReceiptsHash), "receipts-hash-independent-of-worker-count")
+	vAssert(bytes.Equal(ca.AppHash, cb.AppHash), "app-hash-independent-of-worker-count")
+}
